@@ -267,6 +267,11 @@ def State.popPacketNumber (s : State) (lvl : Level) (nts : PN) : State × Out :=
     | none => (s, { res := .panic .nonSequential })
     | some (sp', pn, sk) => (s.setSpace lvl sp', { pn := pn, skipped := sk })
 
+/-- `h.bytesInFlight += size; if h.numProbesToSend > 0 { h.numProbesToSend-- }` -/
+def State.aeSent (s : State) (size : Int) : State :=
+  { s with bytesInFlight := s.bytesInFlight + size,
+           numProbesToSend := if s.numProbesToSend > 0 then s.numProbesToSend - 1 else s.numProbesToSend }
+
 /-- `SentPacket` -/
 def State.sentPacket (s : State) (env : Env) (t : Time) (pn largestAcked : PN) (sframes frames : List Frame)
     (lvl : Level) (size : Int) (mtu probe : Bool) : State × Res :=
@@ -283,8 +288,7 @@ def State.sentPacket (s : State) (env : Env) (t : Time) (pn largestAcked : PN) (
       | some h => ((s.setSpace lvl { sp with hist := h }).setTimer env t, .ok)
     else if p.ackEliciting then
       let sp := { sp with lastAETime := t }
-      let s := { s with bytesInFlight := s.bytesInFlight + size,
-                        numProbesToSend := if s.numProbesToSend > 0 then s.numProbesToSend - 1 else s.numProbesToSend }
+      let s := s.aeSent size
       match sp.hist.sentPacket pn { p with inFlight := true } with
       | none => (s.setSpace lvl sp, .panic .nonSequential)
       | some h => ((s.setSpace lvl { sp with hist := h }).setTimer env t, .ok)
@@ -311,6 +315,16 @@ def advance (pn : PN) : List Range → List Range
   | r :: r' :: rest => if pn > r.2 then advance pn (r' :: rest) else r :: r' :: rest
   | l => l
 
+/-- `if ack.HasMissingRanges() { for pn > ackRange.Largest && … }` -/
+def nextRem (multi : Bool) (pn : PN) (rem : List Range) : List Range := if multi then advance pn rem else rem
+
+/-- position of `pn` relative to the current ACK range: (below its Smallest, above its Largest);
+    only evaluated `if ack.HasMissingRanges()` -/
+def rangeCheck (multi : Bool) (pn : PN) (rem : List Range) : Bool × Bool :=
+  match multi, rem with
+  | true, r :: _ => (decide (pn < r.1), decide (pn > r.2))
+  | _, _ => (false, false)
+
 inductive CollectRes
   | done (probes stash : List (PN × Packet)) (acc : List PN)
   /-- "BUG: ackhandler would have acked wrong packet" -/
@@ -328,12 +342,9 @@ def collect (multi : Bool) (lowest largest : PN) :
     if pn < lowest then collect multi lowest largest (pn + 1) rest rem probes stash acc
     else if pn > largest then .done probes stash acc
     else
-      let rem := if multi then advance pn rem else rem
-      let (below, above) : Bool × Bool := match multi, rem with
-        | true, r :: _ => (decide (pn < r.1), decide (pn > r.2))
-        | _, _ => (false, false)
-      if below then collect multi lowest largest (pn + 1) rest rem probes stash acc
-      else if above then .bug probes stash acc
+      let rem := nextRem multi pn rem
+      if (rangeCheck multi pn rem).1 then collect multi lowest largest (pn + 1) rest rem probes stash acc
+      else if (rangeCheck multi pn rem).2 then .bug probes stash acc
       else if p.pathProbe then
         match removeProbe pn probes with
         | (some q, probes') => collect multi lowest largest (pn + 1) rest rem probes' (stash ++ [(pn, q)]) (acc ++ [pn])
@@ -416,14 +427,16 @@ def lostProbesLoop : List PN → List (PN × Packet) → List Ev → List Frame 
     | (some p, pr') => lostProbesLoop rest pr' (evs ++ p.frames.map Ev.lost) (disc ++ p.sframes)
     | (none, pr') => lostProbesLoop rest pr' evs disc
 
+/-- the path probes `detectLostPathProbes` declares lost: sent at least `pathProbePacketLossTimeout` ago -/
+def lostProbePNs (probes : List (PN × Packet)) (now : Time) : List PN :=
+  (probes.filter fun x => x.2.sendTime ≤ now - pathProbePacketLossTimeout).map (·.1)
+
 /-- `detectLostPathProbes` (on the application-data space) -/
 def detectLostPathProbes (sp : Space) (now : Time) : Space × List Ev × List Frame :=
   if sp.hist.probes.isEmpty then (sp, [], [])
   else
-    let lossTime := now - pathProbePacketLossTimeout
-    let lost := (sp.hist.probes.filter fun x => x.2.sendTime ≤ lossTime).map (·.1)
-    let (pr, evs, disc) := lostProbesLoop lost sp.hist.probes [] []
-    ({ sp with hist := { sp.hist with probes := pr } }, evs, disc)
+    let r := lostProbesLoop (lostProbePNs sp.hist.probes now) sp.hist.probes [] []
+    ({ sp with hist := { sp.hist with probes := r.1 } }, r.2.1, r.2.2)
 
 /-- the final loop of `ReceivedAck` over the acked packets: `removeFromBytesInFlight` -/
 def removeBifAll : Int → List (PN × Packet) → Option Int
@@ -433,95 +446,109 @@ def removeBifAll : Int → List (PN × Packet) → Option Int
     | none => none
     | some b' => removeBifAll b' rest
 
+/-- `ReceivedAck` after `detectAndRemoveAckedPackets` returned the non-empty list `removed` (the history `h2`
+    is what it left behind; `evs` its callbacks; `sdisc`/`n` ghost bookkeeping: frames of unused stash entries,
+    `len(h.ackedPackets)`) -/
+def State.ackTail (s : State) (env : Env) (lvl : Level) (now : Time) (largest : PN) (sp : Space) (h2 : Hist)
+    (evs : List Ev) (removed : List (PN × Packet)) (sdisc : List Frame) (n : Nat) : State × Out :=
+  let s := s.setSpace lvl { sp with hist := h2, largestAcked := max sp.largestAcked largest }
+  match s.detectLostPackets env now lvl with
+  | (s, evsL, some c) => ({ s with ackedBuf := n }, { res := .panic c, evs := evs ++ evsL, disc := sdisc })
+  | (s, evsL, none) =>
+    let r := if lvl = .oneRTT then detectLostPathProbes s.app now else (s.app, [], [])
+    let s := { s with app := r.1 }
+    match removeBifAll s.bytesInFlight removed with
+    | none =>
+      ({ s with ackedBuf := n }, { res := .panic .negativeBytesInFlight, evs := evs ++ evsL ++ r.2.1, disc := sdisc ++ r.2.2 })
+    | some b =>
+      let s := { s with bytesInFlight := b, ptoCount := if s.peerCompleted then 0 else s.ptoCount, numProbesToSend := 0 }
+      (s.setTimer env now,
+       { evs := evs ++ evsL ++ r.2.1, disc := sdisc ++ r.2.2, flag := removed.any fun x => x.2.level = .oneRTT })
+
+/-- `ReceivedAck` from the call of `detectAndRemoveAckedPackets` on (`s` is the state after the address
+    validation step, `sp` the packet number space of the ACK) -/
+def State.ackCore (s : State) (env : Env) (ranges : List Range) (lvl : Level) (now : Time) (sp : Space)
+    (lowest largest : PN) : State × Out :=
+  if s.ackedBuf > 0 then (s, { res := .err .bugAckedNotEmpty })
+  else if lvl = .oneRTT ∧ sp.hist.skipped.any (acksPacket ranges lowest largest) then (s, { res := .err .ackSkipped })
+  else
+    match collect (ranges.length > 1) lowest largest sp.hist.first sp.hist.packets ranges.reverse sp.hist.probes [] [] with
+    | .bug probes stash acc =>
+      ({ s.setSpace lvl { sp with hist := { sp.hist with probes := probes } } with ackedBuf := acc.length },
+       { res := .err .bugWrongPacket, disc := probesFrames stash })
+    | .done probes stash acc =>
+      match ackedLoop lvl acc { sp.hist with probes := probes } stash [] [] with
+      | (h2, stash', evs, _, .panic c) =>
+        ({ s.setSpace lvl { sp with hist := h2 } with ackedBuf := acc.length },
+         { res := .panic c, evs := evs, disc := probesFrames stash' })
+      | (h2, stash', evs, _, .err e) =>
+        ({ s.setSpace lvl { sp with hist := h2 } with ackedBuf := acc.length },
+         { res := .err e, evs := evs, disc := probesFrames stash' })
+      | (h2, stash', evs, removed, .ok) =>
+        if removed.isEmpty then (s, {})
+        else s.ackTail env lvl now largest sp h2 evs removed (probesFrames stash') acc.length
+
 /-- `ReceivedAck` -/
 def State.receivedAck (s : State) (env : Env) (ranges : List Range) (lvl : Level) (now : Time) : State × Out :=
   match s.getSpace lvl, ranges.head?, ranges.getLast? with
   | some sp, some top, some bot =>
-    let largest := top.2
-    let lowest := bot.1
-    if largest > sp.largestSent then (s, { res := .err .ackUnsent })
+    if top.2 > sp.largestSent then (s, { res := .err .ackUnsent })
     else
+      -- Servers complete address validation when a protected packet is received.
       let s := if s.isClient ∧ !s.peerCompleted ∧ (lvl = .handshake ∨ lvl = .oneRTT)
         then ({ s with peerCompleted := true } : State).setTimer env now else s
-      -- detectAndRemoveAckedPackets
-      if s.ackedBuf > 0 then (s, { res := .err .bugAckedNotEmpty })
-      else if lvl = .oneRTT ∧ sp.hist.skipped.any (acksPacket ranges lowest largest) then
-        (s, { res := .err .ackSkipped })
-      else
-        match collect (ranges.length > 1) lowest largest sp.hist.first sp.hist.packets ranges.reverse sp.hist.probes [] [] with
-        | .bug probes stash acc =>
-          ({ s.setSpace lvl { sp with hist := { sp.hist with probes := probes } } with ackedBuf := acc.length },
-           { res := .err .bugWrongPacket, disc := probesFrames stash })
-        | .done probes stash acc =>
-          match ackedLoop lvl acc { sp.hist with probes := probes } stash [] [] with
-          | (h2, stash', evs, _, .panic c) =>
-            ({ s.setSpace lvl { sp with hist := h2 } with ackedBuf := acc.length },
-             { res := .panic c, evs := evs, disc := probesFrames stash' })
-          | (h2, stash', evs, _, .err e) =>
-            ({ s.setSpace lvl { sp with hist := h2 } with ackedBuf := acc.length },
-             { res := .err e, evs := evs, disc := probesFrames stash' })
-          | (h2, stash', evs, removed, .ok) =>
-            if removed.isEmpty then (s, {})
-            else
-              let s := s.setSpace lvl { sp with hist := h2, largestAcked := max sp.largestAcked largest }
-              let (s, evsL, panicL) := s.detectLostPackets env now lvl
-              match panicL with
-              | some c => ({ s with ackedBuf := acc.length }, { res := .panic c, evs := evs ++ evsL, disc := probesFrames stash' })
-              | none =>
-                let (app, evsP, discP) := if lvl = .oneRTT then detectLostPathProbes s.app now else (s.app, [], [])
-                let s := { s with app := app }
-                match removeBifAll s.bytesInFlight removed with
-                | none =>
-                  ({ s with ackedBuf := acc.length },
-                   { res := .panic .negativeBytesInFlight, evs := evs ++ evsL ++ evsP, disc := probesFrames stash' ++ discP })
-                | some b =>
-                  let s := { s with bytesInFlight := b, ptoCount := if s.peerCompleted then 0 else s.ptoCount,
-                                    numProbesToSend := 0 }
-                  (s.setTimer env now,
-                   { evs := evs ++ evsL ++ evsP, disc := probesFrames stash' ++ discP,
-                     flag := removed.any fun x => x.2.level = .oneRTT })
+      s.ackCore env ranges lvl now sp bot.1 top.2
   | none, _, _ => (s, { res := .panic .nilSpace })
   | _, _, _ => (s, { res := .panic .emptyAck })
 
 /-! ### OnLossDetectionTimeout -/
 
-/-- body of `OnLossDetectionTimeout` (the deferred `setLossDetectionTimer` is added by the caller) -/
-def State.timeoutBody (s : State) (env : Env) (now : Time) (nts : PN) : State × Out :=
-  let (app, evs0, disc0) := if s.handshakeConfirmed then detectLostPathProbes s.app now else (s.app, [], [])
-  let s := { s with app := app }
-  let (lossTime, lvl) := s.getLossTimeAndSpace
-  if lossTime ≠ 0 then
-    let (s, evsL, panicL) := s.detectLostPackets env now lvl
-    (s, { res := match panicL with | some c => .panic c | none => .ok, evs := evs0 ++ evsL, disc := disc0 })
+/-- `h.ptoCount++; h.numProbesToSend += 2; switch encLevel { … }` of `OnLossDetectionTimeout` -/
+def State.ptoSwitch (s : State) (lvl : Level) (nts : PN) (evs0 : List Ev) (disc0 : List Frame) : State × Out :=
+  let s := { s with ptoCount := s.ptoCount + 1, numProbesToSend := s.numProbesToSend + 2 }
+  match lvl with
+  | .initial => ({ s with ptoMode := sendPTOInitial }, { evs := evs0, disc := disc0 })
+  | .handshake => ({ s with ptoMode := sendPTOHandshake }, { evs := evs0, disc := disc0 })
+  | .oneRTT =>
+    -- skip a packet number in order to elicit an immediate ACK
+    match s.app.pop nts with
+    | none => (s, { res := .panic .nonSequential, evs := evs0, disc := disc0 })
+    | some (sp, pn, sk) =>
+      match sp.hist.skippedPacket pn with
+      | none => ({ s with app := sp }, { res := .panic .nonSequential, evs := evs0, disc := disc0, skipped := sk })
+      | some h =>
+        ({ s with app := { sp with hist := h }, ptoMode := sendPTOAppData },
+         { evs := evs0, disc := disc0, pn := pn, skipped := sk ++ [pn] })
+  | _ => (s, { res := .err .ptoLevel, evs := evs0, disc := disc0 })
+
+/-- the PTO branch of `OnLossDetectionTimeout`, from `ptoTime, encLevel := h.getPTOTimeAndSpace(now)` on -/
+def State.ptoFire (s : State) (env : Env) (now : Time) (nts : PN) (evs0 : List Ev) (disc0 : List Frame) : State × Out :=
+  if (s.getPTOTimeAndSpace env now).1 = 0 then (s, { evs := evs0, disc := disc0 })
+  else match s.getSpace (s.getPTOTimeAndSpace env now).2 with
+    | none => (s, { res := .panic .nilSpace, evs := evs0, disc := disc0 })
+    | some ps =>
+      if !ps.hist.hasOutstandingPackets ∧ !ps.hist.hasOutstandingPathProbes ∧ !s.peerCompleted then
+        (s, { evs := evs0, disc := disc0 })
+      else
+        s.ptoSwitch (s.getPTOTimeAndSpace env now).2 nts evs0 disc0
+
+/-- `OnLossDetectionTimeout` after the path-probe check (`evs0`/`disc0`: what that check reported) -/
+def State.timeoutMain (s : State) (env : Env) (now : Time) (nts : PN) (evs0 : List Ev) (disc0 : List Frame) : State × Out :=
+  if s.getLossTimeAndSpace.1 ≠ 0 then
+    -- Early retransmit or time loss detection
+    let r := s.detectLostPackets env now s.getLossTimeAndSpace.2
+    (r.1, { res := match r.2.2 with | some c => .panic c | none => .ok, evs := evs0 ++ r.2.1, disc := disc0 })
   else if s.bytesInFlight = 0 ∧ !s.peerCompleted then
     let s := { s with ptoCount := s.ptoCount + 1, numProbesToSend := s.numProbesToSend + 1 }
     if s.initial.isSome then ({ s with ptoMode := sendPTOInitial }, { evs := evs0, disc := disc0 })
     else if s.handshake.isSome then ({ s with ptoMode := sendPTOHandshake }, { evs := evs0, disc := disc0 })
     else (s, { res := .err .bugPTO, evs := evs0, disc := disc0 })
-  else
-    let (ptoTime, lvl) := s.getPTOTimeAndSpace env now
-    if ptoTime = 0 then (s, { evs := evs0, disc := disc0 })
-    else match s.getSpace lvl with
-      | none => (s, { res := .panic .nilSpace, evs := evs0, disc := disc0 })
-      | some ps =>
-        if !ps.hist.hasOutstandingPackets ∧ !ps.hist.hasOutstandingPathProbes ∧ !s.peerCompleted then
-          (s, { evs := evs0, disc := disc0 })
-        else
-          let s := { s with ptoCount := s.ptoCount + 1, numProbesToSend := s.numProbesToSend + 2 }
-          match lvl with
-          | .initial => ({ s with ptoMode := sendPTOInitial }, { evs := evs0, disc := disc0 })
-          | .handshake => ({ s with ptoMode := sendPTOHandshake }, { evs := evs0, disc := disc0 })
-          | .oneRTT =>
-            -- skip a packet number in order to elicit an immediate ACK
-            match s.app.pop nts with
-            | none => (s, { res := .panic .nonSequential, evs := evs0, disc := disc0 })
-            | some (sp, pn, sk) =>
-              match sp.hist.skippedPacket pn with
-              | none => ({ s with app := sp }, { res := .panic .nonSequential, evs := evs0, disc := disc0, skipped := sk })
-              | some h =>
-                ({ s with app := { sp with hist := h }, ptoMode := sendPTOAppData },
-                 { evs := evs0, disc := disc0, pn := pn, skipped := sk ++ [pn] })
-          | _ => (s, { res := .err .ptoLevel, evs := evs0, disc := disc0 })
+  else s.ptoFire env now nts evs0 disc0
+
+/-- body of `OnLossDetectionTimeout` (the deferred `setLossDetectionTimer` is added by the caller) -/
+def State.timeoutBody (s : State) (env : Env) (now : Time) (nts : PN) : State × Out :=
+  let r := if s.handshakeConfirmed then detectLostPathProbes s.app now else (s.app, [], [])
+  ({ s with app := r.1 } : State).timeoutMain env now nts r.2.1 r.2.2
 
 /-- `OnLossDetectionTimeout` -/
 def State.onLossDetectionTimeout (s : State) (env : Env) (now : Time) (nts : PN) : State × Out :=
@@ -595,11 +622,11 @@ def State.dropPackets (s : State) (env : Env) (lvl : Level) (now : Time) : State
         (({ s with bytesInFlight := b, handshakeConfirmed := true, handshake := none } : State).afterDrop env now,
          { disc := sp.hist.pending })
   | .zeroRTT =>
-    let (h, b, disc, panicked) := drop0RTTLoop s.app.hist.packets.length s.app.hist.first s.app.hist s.bytesInFlight []
-    let s := { s with app := { s.app with hist := h }, bytesInFlight := b }
-    match panicked with
-    | some c => (s, { res := .panic c, disc := disc })
-    | none => (s.afterDrop env now, { disc := disc })
+    let r := drop0RTTLoop s.app.hist.packets.length s.app.hist.first s.app.hist s.bytesInFlight []
+    let s := { s with app := { s.app with hist := r.1 }, bytesInFlight := r.2.1 }
+    match r.2.2.2 with
+    | some c => (s, { res := .panic c, disc := r.2.2.1 })
+    | none => (s.afterDrop env now, { disc := r.2.2.1 })
   | _ => (s, { res := .panic .dropLevel })   -- panic("Cannot drop keys for encryption level …")
 
 /-- `ReceivedBytes` -/
@@ -664,13 +691,13 @@ def migrateProbes : Nat → Nat → List (PN × Packet) → List (PN × Packet) 
 
 /-- `MigratedPath` -/
 def State.migratedPath (s : State) (env : Env) (now : Time) : State × Out :=
-  let (h, b, evs, panicked) := migrateLoop s.app.hist.packets.length s.app.hist.first s.app.hist s.bytesInFlight []
-  match panicked with
-  | some c => ({ s with app := { s.app with hist := h }, bytesInFlight := b }, { res := .panic c, evs := evs })
+  let r := migrateLoop s.app.hist.packets.length s.app.hist.first s.app.hist s.bytesInFlight []
+  match r.2.2.2 with
+  | some c => ({ s with app := { s.app with hist := r.1 }, bytesInFlight := r.2.1 }, { res := .panic c, evs := r.2.2.1 })
   | none =>
-    let (pr, removed) := migrateProbes h.probes.length 0 h.probes [] []
-    let s := { s with app := { s.app with hist := { h with probes := pr } }, bytesInFlight := b }
-    (s.setTimer env now, { evs := evs, disc := probesFrames removed })
+    let q := migrateProbes r.1.probes.length 0 r.1.probes [] []
+    let s := { s with app := { s.app with hist := { r.1 with probes := q.1 } }, bytesInFlight := r.2.1 }
+    (s.setTimer env now, { evs := r.2.2.1, disc := probesFrames q.2 })
 
 def optLen : Option Space → Int
   | some sp => sp.hist.len
